@@ -713,84 +713,130 @@ func (v *verifier) checkData(res *imgResult, n *node.Node, k int, obs map[partKe
 				func(r *rowRec) bool { return r.Host == h }})
 		}
 		for qi, qq := range qs {
-			got, err := queryCells(c, L, qq.sql, qq.field)
-			queries++
-			if verbose {
-				fmt.Printf("  QUERY %s -> err=%v %v\n", qq.sql, err, got)
-			}
-			if err != nil {
-				if !notFound(err) {
-					res.fail("C07/query-fails"+suffix, "%s: %v", qq.sql, err)
-					continue
+			qi, qq := qi, qq
+			type failure struct{ class, msg string }
+			evaluate := func(got map[string]map[string]float64, err error) ([]failure, map[string]int) {
+				var fails []failure
+				cnt := map[string]int{}
+				add := func(class, format string, args ...interface{}) {
+					fails = append(fails, failure{class, fmt.Sprintf(format, args...)})
 				}
-				got = map[string]map[string]float64{}
-				res.Counters["queries_answered_not_found"]++
-			}
-			used := map[string]bool{}
-			var selected []*rowRef
-			for _, cl := range cells {
-				row := cl.ref.row
-				if !qq.sel(row) {
-					continue
-				}
-				if cl.status != stAbsent {
-					selected = append(selected, cl.ref)
-				}
-				slotKey := fmt.Sprintf("%d/%d", row.Family, row.Slot)
-				val := got[row.UID][slotKey]
-				used[row.UID+"@"+slotKey] = true
-				switch cl.status {
-				case stMust:
-					res.Counters["rows_required"]++
-					if qi == 0 {
-						if v.inHole(cl.ref, k) {
-							res.Counters["required_rows_inside_the_flush_protocol_window"]++
-						} else {
-							res.Counters["required_rows_outside_the_flush_protocol_window"]++
-						}
+				if err != nil {
+					if !notFound(err) {
+						add("C07/query-fails"+suffix, "%s: %v", qq.sql, err)
+						return fails, cnt
 					}
-					switch {
-					case val == 1:
-						res.Counters["rows_found_exactly_once"]++
-					case val == 0:
-						cls := classifyLost(cl.ref)
-						res.fail(cls+suffix, "row %s (entry %d, %s seq %d; stored sequence %d, replicator restarted at %d) is not returned by %q [%s] %s",
-							row.key(), cl.ref.entry.ID, cl.ref.entry.Part, cl.ref.entry.Seq, obs[cl.ref.entry.Part].Durable, obs[cl.ref.entry.Part].StartIndex, qq.sql, qq.name, res.Note["reuse"])
-					default:
-						o := obs[cl.ref.entry.Part]
-						cls := "C07/entry-counted-twice/above-stored-sequence"
-						if cl.ref.entry.Seq <= o.Durable {
-							cls = "C07/entry-counted-twice/at-or-below-stored-sequence"
-						} else if cl.ref.entry.Raced || v.overlapsDataFlush(cl.ref.entry) {
-							// the flush that started between WriteRows and CommitSequence of this entry stored its rows
-							// under the previous sequence
-							cls = "C07/entry-counted-twice/data-flush-started-between-writerows-and-commitsequence"
-						}
-						diag := ""
-						if !isExpectedClass(cls) {
-							again, err2 := queryCells(c, L, qq.sql, qq.field)
-							diag = fmt.Sprintf("; the same query again: value %v (err %v); families: %s", again[row.UID][slotKey], err2, familyStates(n))
-						}
-						res.fail(cls+suffix, "row %s (entry %d, %s seq %d) has value %v instead of 1 in %q; stored sequence %d, replay applied %v%s",
-							row.key(), cl.ref.entry.ID, cl.ref.entry.Part, cl.ref.entry.Seq, val, qq.sql, o.Durable, o.Applied, diag)
-					}
-				case stMay:
-					// WriteLog never returned and the sequence is unknown: nothing to require
-				case stAbsent:
-					if val != 0 {
-						res.fail("C07/query-returns-data-of-an-entry-appended-after-the-image"+suffix, "row %s has value %v in %q", row.key(), val, qq.sql)
-					}
+					got = map[string]map[string]float64{}
+					cnt["queries_answered_not_found"]++
 				}
-			}
-			// anything else in the answer
-			for uid, slots := range got {
-				for slotKey, val := range slots {
-					if used[uid+"@"+slotKey] {
+				used := map[string]bool{}
+				var selected []*rowRef
+				for _, cl := range cells {
+					row := cl.ref.row
+					if !qq.sel(row) {
 						continue
 					}
-					cls, owner := classifyForeign(slotKey, selected)
-					res.fail(cls+suffix, "%q returns value %v for uid %s at slot %s, which belongs to %s", qq.sql, val, uid, slotKey, owner)
+					if cl.status != stAbsent {
+						selected = append(selected, cl.ref)
+					}
+					slotKey := fmt.Sprintf("%d/%d", row.Family, row.Slot)
+					val := got[row.UID][slotKey]
+					used[row.UID+"@"+slotKey] = true
+					switch cl.status {
+					case stMust:
+						cnt["rows_required"]++
+						if qi == 0 {
+							if v.inHole(cl.ref, k) {
+								cnt["required_rows_inside_the_flush_protocol_window"]++
+							} else {
+								cnt["required_rows_outside_the_flush_protocol_window"]++
+							}
+						}
+						switch {
+						case val == 1:
+							cnt["rows_found_exactly_once"]++
+						case val == 0:
+							cls := classifyLost(cl.ref)
+							add(cls+suffix, "row %s (entry %d, %s seq %d; stored sequence %d, replicator restarted at %d) is not returned by %q [%s] %s",
+								row.key(), cl.ref.entry.ID, cl.ref.entry.Part, cl.ref.entry.Seq, obs[cl.ref.entry.Part].Durable, obs[cl.ref.entry.Part].StartIndex, qq.sql, qq.name, res.Note["reuse"])
+						default:
+							o := obs[cl.ref.entry.Part]
+							cls := "C07/entry-counted-twice/above-stored-sequence"
+							if cl.ref.entry.Seq <= o.Durable {
+								cls = "C07/entry-counted-twice/at-or-below-stored-sequence"
+							} else if cl.ref.entry.Raced || v.overlapsDataFlush(cl.ref.entry) {
+								// the flush that started between WriteRows and CommitSequence of this entry stored its rows
+								// under the previous sequence
+								cls = "C07/entry-counted-twice/data-flush-started-between-writerows-and-commitsequence"
+							}
+							diag := ""
+							if !isExpectedClass(cls) {
+								diag = "; families: " + familyStates(n)
+							}
+							add(cls+suffix, "row %s (entry %d, %s seq %d) has value %v instead of 1 in %q; stored sequence %d, replay applied %v%s",
+								row.key(), cl.ref.entry.ID, cl.ref.entry.Part, cl.ref.entry.Seq, val, qq.sql, o.Durable, o.Applied, diag)
+						}
+					case stMay:
+						// WriteLog never returned and the sequence is unknown: nothing to require
+					case stAbsent:
+						if val != 0 {
+							add("C07/query-returns-data-of-an-entry-appended-after-the-image"+suffix, "row %s has value %v in %q", row.key(), val, qq.sql)
+						}
+					}
 				}
+				// anything else in the answer
+				for uid, slots := range got {
+					for slotKey, val := range slots {
+						if used[uid+"@"+slotKey] {
+							continue
+						}
+						cls, owner := classifyForeign(slotKey, selected)
+						add(cls+suffix, "%q returns value %v for uid %s at slot %s, which belongs to %s", qq.sql, val, uid, slotKey, owner)
+					}
+				}
+
+				return fails, cnt
+			}
+			unexpectedOf := func(fails []failure) string {
+				var keys []string
+				for _, f := range fails {
+					if !isExpectedClass(f.class) {
+						keys = append(keys, f.class+" "+f.msg)
+					}
+				}
+				sort.Strings(keys)
+				return strings.Join(keys, "\n")
+			}
+			ask := func() ([]failure, map[string]int) {
+				got, err := queryCells(c, L, qq.sql, qq.field)
+				queries++
+				if verbose {
+					fmt.Printf("  QUERY %s -> err=%v %v\n", qq.sql, err, got)
+				}
+				return evaluate(got, err)
+			}
+			fails, cnt := ask()
+			if first := unexpectedOf(fails); first != "" {
+				// lindb's query engine does not always give the same answer to the same query on the same quiescent node
+				// (seen under load: one cell counted twice in one answer and once in the next, 'exceed timeout'); that is
+				// not what this property is about: an unexpected verdict counts only if two of three identical queries give it
+				f2, c2 := ask()
+				if unexpectedOf(f2) != first {
+					f3, c3 := ask()
+					res.Counters["identical_queries_with_different_answers_at_quiescence"]++
+					res.Note["unrepeatable"] = fmt.Sprintf("first answer: %s | second answer: %s | third answer: %s", tailStr(first, 600), tailStr(unexpectedOf(f2), 300), tailStr(unexpectedOf(f3), 300))
+					if unexpectedOf(f3) == unexpectedOf(f2) {
+						fails, cnt = f2, c2
+					} else if unexpectedOf(f3) != first {
+						_ = c3 // three different answers: keep the first
+					}
+				}
+			}
+			for key, val := range cnt {
+				res.Counters[key] += val
+			}
+			for _, f := range fails {
+				res.fail(f.class, "%s", f.msg)
 			}
 		}
 	}
